@@ -1243,6 +1243,7 @@ type pendingRaftLogQuery struct {
 	mu struct {
 		sync.Mutex
 		pending *RequestState
+		closed  bool
 	}
 }
 
@@ -1253,6 +1254,7 @@ func newPendingRaftLogQuery() pendingRaftLogQuery {
 func (p *pendingRaftLogQuery) close() {
 	p.mu.Lock()
 	defer p.mu.Unlock()
+	p.mu.closed = true
 	if p.mu.pending != nil {
 		p.mu.pending.terminated()
 		p.mu.pending = nil
@@ -1263,6 +1265,9 @@ func (p *pendingRaftLogQuery) add(firstIndex uint64,
 	lastIndex uint64, maxSize uint64) (*RequestState, error) {
 	p.mu.Lock()
 	defer p.mu.Unlock()
+	if p.mu.closed {
+		return nil, ErrShardClosed
+	}
 	if p.mu.pending != nil {
 		return nil, ErrSystemBusy
 	}
@@ -1287,6 +1292,11 @@ func (p *pendingRaftLogQuery) returned(outOfRange bool,
 	p.mu.Lock()
 	defer p.mu.Unlock()
 	if p.mu.pending == nil {
+		if p.mu.closed {
+			// the node has been closed after the query was handed to raft, the
+			// request has already been terminated by close()
+			return
+		}
 		panic("no pending raft log query")
 	}
 
